@@ -306,8 +306,13 @@ def literals_shard(args):
                 exp = float(pytext)
             except (ValueError, OverflowError):
                 continue
-            via = rng.choice(["literal", "literal", "parseJson", "parseYaml", "neg"])
-            if via == "literal":
+            via = rng.choice(["literal", "literal", "parseJson", "parseYaml", "neg", "thunk", "thunk"])
+            if via == "thunk":
+                # the literal in a delayed position (array element, field, local, argument): same value, same errors
+                w = rng.choice(["[%s][0]", "{a: %s}.a", "local x = %s; x", "(function(v) v)(%s)", "std.max(%s, -1e308)",
+                                "local x = %s; [x, x][1]", "{a: %s}.a + 0", "[%s, 1][0] * 1", "std.abs(%s)"])
+                src = w % text
+            elif via == "literal":
                 src = text
             elif via == "neg":
                 src = "-" + text
@@ -329,6 +334,13 @@ def literals_shard(args):
                 continue
             if len(re.sub(r"[^0-9]", "", text)) > 17:
                 agg.nontrivial.add(common.h64(src))
+            if math.isinf(exp) and via == "thunk":
+                # also without projecting: the structure itself must not contain an infinity
+                r2 = ev.run(rng.choice(["[%s]", "{a: %s}", "[[%s]]", "std.toString(%s)", "'' + %s", "-%s", "local x = %s; -x"]) % text)
+                if r2.cls == "value":
+                    agg.violation({"kind": "overflowing_literal_accepted", "via": "thunk-structure"},
+                                  {"src": r2.lines[-3][:200] if r2.lines else "", "out": (r2.out or "")[:100]}, {"script": r2.lines})
+                    continue
             if math.isinf(exp):
                 if r.cls == "value":
                     agg.violation({"kind": "overflowing_literal_accepted", "via": via},
